@@ -502,8 +502,9 @@ class ZorgFileCompiler(ZorgFileListener):
             )
             if any(
                 any(
-                    "::" in b.split()[0]
+                    "::" in w
                     for b in bullet.split(l2_bullet_prefix)[1:]
+                    for w in b.split()[:1]
                 )
                 for bullet in bullets
             ):
@@ -518,8 +519,9 @@ class ZorgFileCompiler(ZorgFileListener):
                 ]
             if any(
                 any(
-                    "::" in b.split()[0]
+                    "::" in w
                     for b in bullet.split(l3_bullet_prefix)[1:]
+                    for w in b.split()[:1]
                 )
                 for bullet in bullets
             ):
@@ -537,10 +539,14 @@ class ZorgFileCompiler(ZorgFileListener):
 
             for bullet in bullets:
                 words = bullet.split()
-                if zdt.is_short_date_spec(words[0]):
+                if words and zdt.is_short_date_spec(words[0]):
                     words.pop(0)
-                if zdt.is_zid(words[0]):
+                if words and zdt.is_zid(words[0]):
                     words.pop(0)
+                if not words:
+                    # e.g. an empty bullet, or a note whose first line holds
+                    # nothing but its modify date / ZID.
+                    continue
                 first_word = words.pop(0)
                 if first_word.endswith("::"):
                     key = first_word[:-2]
